@@ -201,19 +201,22 @@ def _one_mutant(pid, m):
 
 
 def _seeded(pid, d):
+    """Outcome of this property's check on one seeded change (see sa/seedlib.py: evaluated on
+    the current tree while the files it touches are unchanged since the seed was written,
+    otherwise on its pinned base commit, relative to that tree without the patch)."""
+    from . import seedlib
     name = os.path.basename(d)
-    sc = _scratch()
     try:
-        r = subprocess.run(['patch', '-p1', '-s', '-i', os.path.join(d, 'patch.diff')], cwd=sc, capture_output=True, text=True)
-        if r.returncode != 0:
-            return name, 'patch-does-not-apply', []
-        rc, rules = _run_check(pid, sc)
-        twin = re.search(r'R\d$', name) is not None
-        if twin:
-            return name, {0: 'silent', 1: 'ALARM', 2: 'incomplete'}.get(rc, 'error'), rules
-        return name, {0: 'MISSED', 1: 'caught', 2: 'incomplete'}.get(rc, 'error'), rules
-    finally:
-        shutil.rmtree(sc, ignore_errors=True)
+        r = seedlib.evaluate(d, [pid])
+    except Exception as e:
+        return name, 'error:%s' % type(e).__name__, []
+    if 'error' in r:
+        return name, 'patch-does-not-apply', [r['error']]
+    v = r[pid]['verdict']
+    twin = re.search(r'R\d$', name) is not None
+    if twin:
+        return name, {'holds': 'silent', 'VIOLATION': 'ALARM', 'incomplete': 'incomplete'}[v], r[pid]['rules']
+    return name, {'holds': 'MISSED', 'VIOLATION': 'caught', 'incomplete': 'incomplete'}[v], r[pid]['rules']
 
 
 def _twin(pid, name, files):
